@@ -757,6 +757,7 @@ where
                 e.0 += 1;
                 if y {
                     e.1 += 1;
+                    *s.probes.entry("h2-yielded").or_insert(0) += 1;
                 }
             });
             y
